@@ -1586,6 +1586,27 @@ ALWAYS_MODEL.add(warnings.warn)
 
 
 # ---------------------------------------------------------------- concretisation (path witnesses)
+CONC_SALT = [0]     # varied by the concrete completion of cut paths, so that inputs the path never constrained differ between runs
+
+
+def _ev_char(c, model):
+    """code point of a symbolic character under the model; a character the path never constrained (no interpretation in the
+    model) gets a value *of its domain* - not chr(0) - picked by name and CONC_SALT"""
+    t = c.t
+    v = model.eval(t, model_completion=False)
+    if z3.is_int_value(v):
+        return v.as_long()
+    dom = getattr(c, 'dom', None)
+    if dom and z3.is_const(t) and t.decl().kind() == z3.Z3_OP_UNINTERPRETED:
+        size = sum(hi - lo + 1 for lo, hi in dom)
+        k = 0 if not CONC_SALT[0] else (sum(map(ord, t.decl().name())) * 31 + CONC_SALT[0] * 7919) % size
+        for lo, hi in dom:
+            if k <= hi - lo:
+                return lo + k
+            k -= hi - lo + 1
+    return model.eval(t, model_completion=True).as_long()
+
+
 def concretize(v, model, depth=0):
     """Plain-python value of v under a z3 model."""
     if isinstance(v, Sym):
@@ -1594,9 +1615,9 @@ def concretize(v, model, depth=0):
         if isinstance(v, SymBool):
             return z3.is_true(model.eval(v.t, model_completion=True))
         if isinstance(v, SymChar):
-            return chr(model.eval(v.t, model_completion=True).as_long())
+            return chr(_ev_char(v, model))
         if isinstance(v, SymStr):
-            return "".join(c if isinstance(c, str) else chr(model.eval(c.t, model_completion=True).as_long()) for c in v.items)
+            return "".join(c if isinstance(c, str) else chr(_ev_char(c, model)) for c in v.items)
         if isinstance(v, SymBytes):
             return bytes(x if isinstance(x, int) else model.eval(x, model_completion=True).as_long() for x in v.items)
         if isinstance(v, SymEnum):
